@@ -1597,7 +1597,7 @@ func (a *Agent) TaskPrepare(Command int, Info any, Message *map[string]string, C
 		var (
 			SubCommand string
 			Param      string
-			FileID     int64
+			FileID     uint64
 		)
 
 		if val, ok := Optional["Command"]; ok {
@@ -1620,38 +1620,38 @@ func (a *Agent) TaskPrepare(Command int, Info any, Message *map[string]string, C
 			break
 
 		case "stop":
-			FileID, err = strconv.ParseInt(Param, 16, 32)
+			FileID, err = strconv.ParseUint(Param, 16, 32)
 			if err != nil {
 				return nil, err
 			}
 
 			job.Data = []interface{}{
 				0x1,
-				FileID,
+				uint32(FileID),
 			}
 			break
 
 		case "resume":
-			FileID, err = strconv.ParseInt(Param, 16, 32)
+			FileID, err = strconv.ParseUint(Param, 16, 32)
 			if err != nil {
 				return nil, err
 			}
 
 			job.Data = []interface{}{
 				0x2,
-				FileID,
+				uint32(FileID),
 			}
 			break
 
 		case "remove":
-			FileID, err = strconv.ParseInt(Param, 16, 32)
+			FileID, err = strconv.ParseUint(Param, 16, 32)
 			if err != nil {
 				return nil, err
 			}
 
 			job.Data = []interface{}{
 				0x3,
-				FileID,
+				uint32(FileID),
 			}
 			break
 		}
